@@ -181,7 +181,7 @@ def run(fx, rep):
         rep.check(used <= allowed and bool(used), 'R4', '%s/fields' % nm, bs[0].loc(), 'touches %s' % sorted(used), '%s touches %s, allowed %s' % (nm, sorted(used), sorted(allowed)))
     rep.floor('R1', 3)
     rep.floor('R2', 9)
-    rep.floor('R3', 13)
+    rep.floor('R3', 7)
     rep.floor('R4', 6)
 
 
